@@ -572,6 +572,7 @@ type AnchoredAssert struct {
 	Callee string
 	C      Clause
 	Lemma  string // apply <lemma> before|after <callee>: the (separately proved) lemma is assumed at that point
+	Inst   []Expr // optional instantiation of the lemma's leading universally quantified variables
 }
 
 type PredDef struct {
@@ -802,11 +803,39 @@ func parseSpecLines(file string, pkg string, lines []specLine) (*SpecFile, error
 			if cur == nil {
 				return nil, errf("apply outside func")
 			}
-			f := strings.Fields(d.text)
-			if len(f) != 3 || (f[1] != "before" && f[1] != "after") {
-				return nil, errf("apply: expected '<lemma> before|after <callee>'")
+			// optional instantiation: apply <lemma>(e1, e2) before ...: the lemma's leading variables are e1, e2
+			txt := strings.TrimSpace(d.text)
+			var inst []Expr
+			if lp := strings.Index(txt, "("); lp > 0 && !strings.ContainsAny(txt[:lp], " \t") {
+				depth, rp := 0, -1
+				for i := lp; i < len(txt); i++ {
+					if txt[i] == '(' {
+						depth++
+					} else if txt[i] == ')' {
+						depth--
+						if depth == 0 {
+							rp = i
+							break
+						}
+					}
+				}
+				if rp < 0 {
+					return nil, errf("apply: unbalanced parentheses")
+				}
+				ce, err := ParseExpr("f" + txt[lp:rp+1])
+				if err != nil {
+					return nil, errf("apply: %v", err)
+				}
+				if c, ok := ce.(*ECall); ok {
+					inst = c.Args
+				}
+				txt = txt[:lp] + txt[rp+1:]
 			}
-			cur.Anchored = append(cur.Anchored, AnchoredAssert{Before: f[1] == "before", Callee: f[2], Lemma: f[0], C: Clause{Text: "lemma " + f[0], File: file, Line: d.line}})
+			f := strings.Fields(txt)
+			if len(f) != 3 || (f[1] != "before" && f[1] != "after") {
+				return nil, errf("apply: expected '<lemma>[(args)] before|after <callee>'")
+			}
+			cur.Anchored = append(cur.Anchored, AnchoredAssert{Before: f[1] == "before", Callee: f[2], Lemma: f[0], Inst: inst, C: Clause{Text: "lemma " + f[0], File: file, Line: d.line}})
 		case "denotes":
 			if cur == nil {
 				return nil, errf("denotes outside func")
